@@ -12,6 +12,7 @@ func init() {
 	vRegister("VH_C06_ServerResume", VH_C06_ServerResume)
 	vRegister("VH_C06_ClientResume", VH_C06_ClientResume)
 	vRegister("VH_C06_Lifecycle", VH_C06_Lifecycle)
+	vRegister("VH_C06_StoreResume", VH_C06_StoreResume)
 }
 
 type vhSess struct {
@@ -22,6 +23,7 @@ type vhSess struct {
 	user    string
 	expired bool // expired before the harness read the clock
 	never   bool // no expiration
+	global  bool // established in the global cache rather than the server's own
 	entry   *SessionEntry
 }
 
@@ -91,6 +93,7 @@ func VH_C06_ServerResume() {
 		s1 := vhMakeSession("s1", base, 4)
 		vAssume(s1.id != s0.id)
 		if vBool("s1_global") {
+			s1.global = true
 			GetSessionCache().Store(s1.entry)
 		} else {
 			cache.Store(s1.entry)
@@ -140,6 +143,33 @@ func VH_C06_ServerResume() {
 	vAssert(neg.Authentication == m.authed, "authentication-status-is-the-sessions")
 	vAssert(neg.User == m.user, "identity-is-the-sessions")
 	vAssert(neg.SessionId == sid, "session-id-reported")
+	// What the server says in the clear before the key goes on is all that can
+	// make this connection's transcript differ from an earlier connection of the
+	// same session (the request is the requester's to repeat). A reply that is the
+	// fixed function {ReturnCode, Sid} of the session -- or no reply -- lets the
+	// recorded bytes of an earlier resumed connection authenticate on this one
+	// (stream-side half: VH_C06_ReplayedConnection).
+	if wantReply {
+		fixed := len(io_.sent) == 1 && len(io_.sent[0]) == 1 && io_.sent[0][0].kind == vkAd
+		if fixed {
+			ad := io_.sent[0][0].ad
+			rc, _ := ad.EvaluateAttrString("ReturnCode")
+			rs, _ := ad.EvaluateAttrString("Sid")
+			fixed = ad.Size() == 2 && rc == "AUTHORIZED" && rs == sid
+		}
+		vAssert(!fixed, "resumption-reply-differs-between-connections-of-one-session")
+	}
+	// the resumed session stays invalidatable: dropping it from the cache it was
+	// established in leaves nothing for the next resumption's lookups to find
+	if m.global {
+		vCover("resumed-from-global-cache")
+		vAssert(InvalidateSession(sid), "invalidate-reports-presence")
+	} else {
+		vAssert(cache.Invalidate(sid), "invalidate-reports-presence")
+	}
+	_, l1 := cache.LookupNonExpired(sid)
+	_, l2 := GetSessionCache().LookupNonExpired(sid)
+	vAssert(!l1 && !l2, "invalidated-after-resumption-unreachable-by-the-resumption-lookups")
 }
 
 // VH_C06_ClientResume: resumeSession with an arbitrary cached entry and an
@@ -256,3 +286,65 @@ func VH_C06_Lifecycle() {
 	_, wrongTag := cache.LookupByCommand("", "<a:1>", "8")
 	vAssert(!wrongTag, "mapping-is-per-tag")
 }
+
+// vhStoreResume: the server files a session at the end of a handshake with the
+// real storeSession, for an arbitrary negotiation outcome (authenticated or not,
+// whatever method negotiateSecurity had pencilled in, any identity, key or no
+// key); a later connection resumes it through the real handleSessionResumption.
+// The resumed connection reports exactly the authentication status, identity and
+// key the original handshake ended with; a session that ended without a key is
+// not resumable.
+func vhStoreResume() {
+	vClockWindow(int64(time.Minute))
+	GetSessionCache().Clear()
+	st := stream.NewStream(&vhConn{})
+	st.SetPeerAddr("<198.51.100.7:40000>")
+	io_ := &vhIO{st: st}
+	defer vhInstall(io_)()
+	vhStubCrypto("")
+	cfg := &SecurityConfig{Authentication: vhLevel("sAuth"), Encryption: vhLevel("sEnc"), Integrity: SecurityOptional}
+	a := &Authenticator{config: cfg, stream: st}
+	neg := &SecurityNegotiation{
+		ServerConfig:     cfg,
+		ClientConfig:     &SecurityConfig{},
+		Authentication:   vBool("authenticated"),
+		Encryption:       vBool("encrypted"),
+		NegotiatedAuth:   AuthMethod(vPick("method", vhMethodNames)),
+		NegotiatedCrypto: CryptoAES,
+		User:             vIteStr(vBool("has_user"), "alice@pool", ""),
+		ValidCommands:    "60007",
+	}
+	hasKey := vBool("has_key")
+	key := vBlob("key", 32)
+	if hasKey {
+		neg.setSharedSecret(key)
+	}
+	a.storeSession(neg, "host:1:2:3", 3600, 0)
+
+	st2 := stream.NewStream(&vhConn{})
+	st2.SetPeerAddr("<198.51.100.7:40001>")
+	io_.st = st2
+	a2 := &Authenticator{config: &SecurityConfig{Authentication: cfg.Authentication, Encryption: cfg.Encryption, Integrity: SecurityOptional}, stream: st2}
+	req := classad.New()
+	_ = req.Set("ResumeResponse", vBool("want_reply"))
+	neg2, err := a2.handleSessionResumption(vhCtx, "host:1:2:3", req, commands.DC_AUTHENTICATE)
+	if !hasKey {
+		vCover("keyless-session")
+		vAssert(err != nil, "keyless-session-not-resumed")
+		return
+	}
+	vAssert(err == nil, "stored-session-resumable")
+	if err != nil {
+		return
+	}
+	vCover("stored-session-resumed")
+	vAssert(neg2.Authentication == neg.Authentication, "resumed-authentication-status-is-what-the-handshake-established")
+	vAssert(neg2.User == neg.User, "resumed-identity-is-what-the-handshake-established")
+	vAssertBytesEqual(neg2.GetSharedSecret(), key, "resumed-key-is-the-sessions")
+	vAssert(st2.IsEncrypted(), "resumed-connection-is-keyed")
+}
+
+// VH_C06_StoreResume: see vhStoreResume.
+//
+//verif:unwind 6
+func VH_C06_StoreResume() { vhStoreResume() }
